@@ -48,5 +48,46 @@ fn main() {
         out.sort(); out.dedup();
         std::fs::write(format!("corpus/{}_straight.txt", arch.name()), out.join("\n") + "\n").unwrap();
         println!("{}: {} straight-line units", arch.name(), out.len());
+        // units that lift to a single intrinsic and fall through when unsupported
+        // instructions are intrinsics (seeded random search plus the corpus)
+        let mut iopts = Options::default();
+        iopts.set_unsupported_are_intrinsics(true);
+        let mut rng = simcommon::rng::Rng::new(0xC06 + arch as u64);
+        let mut found: Vec<String> = Vec::new();
+        let mut cands: Vec<Vec<u8>> = corpus(arch);
+        for _ in 0..400_000 {
+            if arch.is_x86() {
+                let mut b = Vec::new();
+                if rng.chance(1, 3) { b.push(*rng.pick(&[0x66u8, 0xf2, 0xf3])); }
+                if rng.chance(2, 3) { b.push(0x0f); }
+                b.push(rng.next() as u8);
+                let tail = rng.usize_below(4); b.extend(rng.bytes(tail));
+                cands.push(b);
+            } else {
+                cands.push(rng.bytes(4));
+            }
+        }
+        for b in cands {
+            if found.len() >= 60 { break; }
+            let ok = (|| {
+                for addr in [0x1000u64, 0x7fff_0040] {
+                    let r = match catch(|| t.translate_block(&b, addr, &iopts)) { Ok(Ok(r)) => r, _ => return false };
+                    if r.length() != b.len() || r.instructions().len() != 1 { return false; }
+                    if r.successors().len() != 1 || r.successors()[0] != (addr + b.len() as u64, None) { return false; }
+                    let mut intr = 0; let mut other = 0;
+                    for (_, g) in r.instructions() { for blk in g.blocks() { for i in blk.instructions() {
+                        match i.operation() { il::Operation::Intrinsic{..} => intr += 1, _ => other += 1 }
+                    } } }
+                    if intr != 1 || other != 0 { return false; }
+                    // must be rejected (not silently accepted) without the option
+                    if let Ok(Ok(_)) = catch(|| t.translate_block(&b, addr, &opts)) { return false; }
+                }
+                true
+            })();
+            if ok { found.push(hex(&b)); }
+        }
+        found.sort(); found.dedup();
+        std::fs::write(format!("corpus/{}_intrinsic.txt", arch.name()), found.join("\n") + "\n").unwrap();
+        println!("{}: {} intrinsic units", arch.name(), found.len());
     }
 }
